@@ -111,6 +111,32 @@ InvC12(s, g) ==
        Chk("C12", "C12.inv.locked_never_exceeds_committed", CommittedDenoms(s) # {}, badLock = {}, Bad(badLock)),
        Chk("C12", "C12.inv.committed_nonnegative", CommittedDenoms(s) # {}, badNeg = {}, Bad(badNeg)) }
 
+(* C13 — credited LP rewards are always payable.                                              *)
+(* Masterchef's accumulator scheme: claimable(p, d, a) = pending + (accPerShare[p,d] * bal(a,p) *)
+(* - debt) / 1e18, in 18-digit Dec mantissas exactly as the code computes it.                  *)
+E18 == Pow(N(10), 18)
+RewardShareDenom(s, p) == IF p = s.mc.stablePoolId THEN s.stable.shareDenom ELSE "amm/pool/" \o p
+AccKey(p, d)        == p \o "|" \o d
+UserKey(p, d, a)    == p \o "|" \o d \o "|" \o a
+AccM(s, p, d)       == IF AccKey(p, d) \in DOMAIN s.mc.accPerShare THEN s.mc.accPerShare[AccKey(p, d)].acc ELSE Zero
+PendingM(s, p, d, a)== IF UserKey(p, d, a) \in DOMAIN s.mc.user THEN s.mc.user[UserKey(p, d, a)].pending ELSE Zero
+DebtM(s, p, d, a)   == IF UserKey(p, d, a) \in DOMAIN s.mc.user THEN s.mc.user[UserKey(p, d, a)].debt ELSE Zero
+ClaimableM(s, x)    == \* x = <<pool, denom, account>>; result is a Dec mantissa
+  PendingM(s, x[1], x[2], x[3]) ++ (((AccM(s, x[1], x[2]) ** Committed(s, x[3], RewardShareDenom(s, x[1]))) -- DebtM(s, x[1], x[2], x[3])) // E18)
+RewardKeys(s) ==
+  {<<s.mc.user[k].pool, s.mc.user[k].denom, s.mc.user[k].user>> : k \in DOMAIN s.mc.user}
+  \cup UNION {{<<s.mc.accPerShare[k].pool, s.mc.accPerShare[k].denom, a>> :
+                 a \in {b \in CommitAccts(s) : Committed(s, b, RewardShareDenom(s, s.mc.accPerShare[k].pool)) # Zero}} : k \in DOMAIN s.mc.accPerShare}
+RewardDenoms(s) == {x[2] : x \in RewardKeys(s)}
+CreditedTotal(s, d) == SumOver({x \in RewardKeys(s) : x[2] = d}, LAMBDA x : ClaimableM(s, x) // E18)
+
+InvC13(s, g) ==
+  LET bad == {d \in RewardDenoms(s) \ VirtualDenoms : Bal(s, "mod:masterchef", d) \prec CreditedTotal(s, d)}
+      neg == {x \in RewardKeys(s) : ClaimableM(s, x) \prec Zero}
+  IN { Chk("C13", "C13.inv.module_balance_covers_credited_rewards", RewardKeys(s) # {}, bad = {},
+           IF bad = {} THEN "" ELSE ToString({<<d, Bal(s, "mod:masterchef", d), CreditedTotal(s, d)>> : d \in bad})),
+       Chk("C13", "C13.inv.credited_rewards_nonnegative", RewardKeys(s) # {}, neg = {}, Bad(neg)) }
+
 (* C15 — bank supply bookkeeping (the per-denom supply rules are step checks) *)
 InvC15(s, g) ==
   LET bad == {d \in AllDenoms(s) : Supply(s, d) # SumOver(Accounts(s), LAMBDA a : Bal(s, a, d))}
@@ -118,5 +144,5 @@ InvC15(s, g) ==
 
 InvChecks(s, g) ==
   InvC01(s, g) \cup InvC02(s, g) \cup InvC06(s, g) \cup InvC08(s, g) \cup InvC09(s, g) \cup InvC11(s, g)
-    \cup InvC12(s, g) \cup InvC15(s, g)
+    \cup InvC12(s, g) \cup InvC13(s, g) \cup InvC15(s, g)
 =============================================================================
